@@ -8,6 +8,7 @@ From Yae Require Import Base.Sexp Model.Ty Gen.Generated Model.Unify Model.Num M
   Model.Check Model.CheckSpec Model.Val Model.Render Model.Builtins Model.Eval Model.EvalSpec Model.VM Model.Verifier.
 Import ListNotations.
 Local Open Scope nat_scope.
+Local Open Scope list_scope.
 
 (* ------------------------------------------------------------------------------------------------ *)
 (* Part 1                                                                                            *)
@@ -30,6 +31,12 @@ Proof.
   - split.
     + apply N.div_lt_upper_bound; [discriminate|]. change (256 * 256)%N with 65536%N. lia.
     + apply N.mod_lt. discriminate.
+Qed.
+
+Lemma skipn_add {X} b : forall (l : list X) a, skipn a (skipn b l) = skipn (b + a) l.
+Proof.
+  induction b as [|b IH]; intros l a; [reflexivity|].
+  destruct l; cbn [skipn Nat.add]; [destruct a; reflexivity|apply IH].
 Qed.
 
 (* ---- decoding ---- *)
@@ -193,4 +200,586 @@ Proof.
   destruct (decode_jump_op _ _ _ Hdec Hj) as [Ho|Ho]; rewrite Ho in Hn;
     apply andb_prop in Hn as [Hn _]; apply andb_prop in Hn as [H1 H2];
     apply Nat.ltb_lt in H1; apply Nat.ltb_lt in H2; auto.
+Qed.
+
+(* ------------------------------------------------------------------------------------------------ *)
+(* Part 2: soundness of the verifier                                                                 *)
+(* ------------------------------------------------------------------------------------------------ *)
+
+Section Safe.
+Variable ops : numops.
+Variable orc : oracles.
+Variable rho : venv.
+Variable pool : list const.
+Variable limit : option nat.
+
+(* the dispatch loop of [vm_run], with the nested runs abstracted ([runf] = [vm_run f]) and one step split off *)
+Section Loop.
+Variable runf : list N -> M val.
+Variable code : list N.
+
+Definition step (continue : list N -> list sval -> M val) (o : opcode) (r : list N) (stack : list sval) : M val :=
+  match o with
+  | OP_NOP => continue r stack
+  | OP_ADD_NUM => continue r stack
+  | OP_RETURN => let^ (v, _) := pop_val stack in ret v
+  | OP_CONST =>
+      let^ (c, r1) := read_const pool r in
+      match c with
+      | CVal v => continue r1 (SV v :: stack)
+      | CThunk body rt => continue r1 (STh body rt :: stack)
+      | _ => fault XTypeConf
+      end
+  | OP_LOAD =>
+      let^ (c, r1) := read_const pool r in
+      match c with
+      | CName nm => match assoc nm rho with Some v => continue r1 (SV v :: stack) | None => fault XNil end
+      | _ => fault XTypeConf
+      end
+  | OP_JUMP => let^ (t, _) := read16 r in continue (skipn (N.to_nat t) code) stack
+  | OP_IF_TRUE =>
+      let^ (t, r1) := read16 r in
+      let^ (v, s1) := pop_val stack in
+      let^ bv := as_bool v in
+      if bv then continue r1 s1 else continue (skipn (N.to_nat t) code) s1
+  | OP_NEW_LIST =>
+      let^ (c, r1) := read_const pool r in let^ (sz, r2) := read16 r1 in
+      match c with
+      | CType (TList e) =>
+          let^ (xs, s1) := pop_n (N.to_nat sz) stack [] in let^ vs := vals_of xs in
+          continue r2 (SV (VList (TList e) vs) :: s1)
+      | _ => fault XTypeConf
+      end
+  | OP_NEW_MAP =>
+      let^ (c, r1) := read_const pool r in let^ (sz, r2) := read16 r1 in
+      match c with
+      | CType (TMap kt vt) =>
+          let^ (xs, s1) := pop_n (2 * N.to_nat sz) stack [] in let^ vs := vals_of xs in
+          let^ entries :=
+            (fix go (vs : list val) (acc : list (list N * val)) : M (list (list N * val)) :=
+               match vs with
+               | k :: v :: rr => let^ kk := key_of ops k in go rr (kput kk v acc)
+               | _ => ret acc
+               end) vs [] in
+          continue r2 (SV (VMap (TMap kt vt) entries) :: s1)
+      | _ => fault XTypeConf
+      end
+  | OP_NEW_OBJ =>
+      let^ (c, r1) := read_const pool r in
+      match c with
+      | CType (TObj fs) =>
+          let^ (xs, s1) := pop_n (len fs) stack [] in let^ vs := vals_of xs in
+          continue r1 (SV (VObj (TObj fs) vs) :: s1)
+      | _ => fault XTypeConf
+      end
+  | OP_LIST_LOAD =>
+      let^ (iv, s1) := pop_val stack in let^ nb := as_num iv in
+      let^ (lv, s2) := pop_val s1 in let^ vs := as_list lv in
+      let idx := to_i64 ops nb in
+      if Z.ltb idx 0 || Z.leb (Z.of_nat (len vs)) idx then fail FIndex
+      else match nth_error vs (Z.to_nat idx) with Some e => continue r (SV e :: s2) | None => fail FIndex end
+  | OP_MAP_LOAD =>
+      let^ (kv, s1) := pop_val stack in
+      let^ (mv, s2) := pop_val s1 in let^ kvs := as_map mv in
+      let^ kk := key_of ops kv in
+      match kget kk kvs with Some e => continue r (SV e :: s2) | None => fail FKey end
+  | OP_OBJ_LOAD =>
+      let^ (idx, r1) := read16 r in let^ (c, r2) := read_const pool r1 in
+      let^ (ov, s1) := pop_val stack in
+      match c, ov with
+      | CName nm, VObj t vs =>
+          match obj_load t vs (N.to_nat idx) nm with Some e => continue r2 (SV e :: s1) | None => fault XNil end
+      | _, _ => fault XTypeConf
+      end
+  | OP_CALL_BY_VALUE =>
+      let^ (c, r1) := read_const pool r in let^ (argc, r2) := read8 r1 in
+      match c with
+      | CFun sg =>
+          let^ (xs, s1) := pop_n (N.to_nat argc) stack [] in let^ vs := vals_of xs in
+          let^ res := apply_strict ops orc sg vs in
+          continue r2 (SV res :: s1)
+      | _ => fault XTypeConf
+      end
+  | OP_CALL_BY_NEED =>
+      let^ (c, r1) := read_const pool r in let^ (argc, r2) := read8 r1 in
+      match c with
+      | CFun sg =>
+          let^ (xs, s1) := pop_n (N.to_nat argc) stack [] in
+          let^ ths := mmapM (fun x => match x with
+                                      | STh body _ => ret (fun (_ : unit) => runf body)
+                                      | SV _ => fault XTypeConf
+                                      end) xs in
+          let^ res := (if sig_is_builtin sg then apply_lazy sg else host_lazy (s_name sg)) ths in
+          continue r2 (SV res :: s1)
+      | _ => fault XTypeConf
+      end
+  | OP_DYNAMIC_CALL =>
+      let^ (argc, r1) := read8 r in
+      let^ (xs, s1) := pop_n (N.to_nat argc) stack [] in let^ vs := vals_of xs in
+      let^ (fv, s2) := pop_val s1 in
+      match fv with
+      | VFun (TFun _ ps rt) name lz =>
+          if lz then fault XNil
+          else let^ res := apply_strict ops orc (mkSig name ps rt false) vs in continue r1 (SV res :: s2)
+      | _ => fault XTypeConf
+      end
+  | _ =>
+      match intrinsic_sem o with
+      | Some (bf, k) =>
+          let^ (xs, s1) := pop_n k stack [] in let^ vs := vals_of xs in
+          let^ res := bsem ops orc bf vs in
+          continue r (SV res :: s1)
+      | None => fault XOpcode
+      end
+  end.
+
+Fixpoint run_loop (g : nat) (rest : list N) (stack : list sval) (n : option nat) {struct g} : M val :=
+  match g with
+  | O => fault XFuel
+  | S g' =>
+    match n with
+    | Some O => fault XLimit
+    | _ =>
+      let n' := option_map pred n in
+      match rest with
+      | [] => fault XOther
+      | b :: r =>
+        match decode_op b with
+        | None => fault XOpcode
+        | Some o => step (fun r s => run_loop g' r s n') o r stack
+        end
+      end
+    end
+  end.
+End Loop.
+
+Lemma vm_run_S f code :
+  vm_run ops orc rho pool limit (S f) code =
+  run_loop (vm_run ops orc rho pool limit f) code (4 * S (len code)) code [] limit.
+Proof. reflexivity. Qed.
+
+
+(* ---- computations that cannot report an underflow or an unknown opcode ---- *)
+Definition okf (k : faultk) : Prop := k <> XUnderflow /\ k <> XOpcode.
+Definition clean {X} (m : M X) : Prop := forall t k, m = (t, OFault k) -> okf k.
+
+Lemma clean_ret {X} (x : X) : clean (ret x).
+Proof. intros t k H. discriminate. Qed.
+Lemma clean_fail {X} k : clean (@fail X k).
+Proof. intros t k' H. discriminate. Qed.
+Lemma clean_fault {X} k : okf k -> clean (@fault X k).
+Proof. intros Hk t k' H. inversion H; subst; auto. Qed.
+Lemma clean_emit e : clean (emit e).
+Proof. intros t k H. discriminate. Qed.
+Lemma clean_bind {X Y} (m : M X) (f : X -> M Y) :
+  clean m -> (forall t x, m = (t, OVal x) -> clean (f x)) -> clean (mbind m f).
+Proof.
+  intros Hm Hf t k H. unfold mbind in H. destruct m as [t0 [x|fk|k0]].
+  - destruct (f x) as [t' o] eqn:E. inversion H; subst. eapply (Hf t0 x eq_refl); eauto.
+  - discriminate.
+  - inversion H; subst. eapply Hm; eauto.
+Qed.
+Lemma clean_bind' {X Y} (m : M X) (f : X -> M Y) : clean m -> (forall x, clean (f x)) -> clean (mbind m f).
+Proof. intros Hm Hf. apply clean_bind; auto. Qed.
+
+Lemma clean_as_num v : clean (as_num v). Proof. destruct v; intros ? ? H; inversion H; split; discriminate. Qed.
+Lemma clean_as_bool v : clean (as_bool v). Proof. destruct v; intros ? ? H; inversion H; split; discriminate. Qed.
+Lemma clean_as_str v : clean (as_str v). Proof. destruct v; intros ? ? H; inversion H; split; discriminate. Qed.
+Lemma clean_as_time v : clean (as_time v). Proof. destruct v; intros ? ? H; inversion H; split; discriminate. Qed.
+Lemma clean_as_list v : clean (as_list v). Proof. destruct v; intros ? ? H; inversion H; split; discriminate. Qed.
+Lemma clean_as_map v : clean (as_map v). Proof. destruct v; intros ? ? H; inversion H; split; discriminate. Qed.
+Lemma clean_key_of v : clean (key_of ops v). Proof. destruct v; intros ? ? H; inversion H; split; discriminate. Qed.
+
+Ltac cl_step :=
+  first
+  [ apply clean_ret | apply clean_fail | apply clean_emit | (apply clean_fault; split; discriminate)
+  | apply clean_as_num | apply clean_as_bool | apply clean_as_str | apply clean_as_time | apply clean_as_list
+  | apply clean_as_map | apply clean_key_of
+  | assumption
+  | (apply clean_bind'; [| intros ?])
+  | progress cbv beta
+  | match goal with |- clean (match ?x with _ => _ end) => destruct x end
+  | match goal with |- clean (if ?x then _ else _) => destruct x end ].
+Ltac cl := repeat cl_step.
+
+Lemma clean_mmapM {X Y} (f : X -> M Y) l : (forall x, In x l -> clean (f x)) -> clean (mmapM f l).
+Proof.
+  induction l as [|x r IH]; intros H; cbn [mmapM].
+  - apply clean_ret.
+  - apply clean_bind'; [apply H; left; auto|]. intros y.
+    apply clean_bind'; [apply IH; intros; apply H; right; auto|]. intros ys. apply clean_ret.
+Qed.
+
+Lemma clean_fold_num f vs : clean (fold_num ops f vs).
+Proof.
+  unfold fold_num. destruct vs as [|v0 r]; cl.
+  - match goal with |- clean (?F r ?a) => generalize a end.
+    induction r as [|v r IH]; intros a; cl. apply IH.
+Qed.
+
+Lemma clean_bsem b args : clean (bsem ops orc b args).
+Proof.
+  unfold bsem, num1, num2, time2, any2.
+  destruct b; try apply clean_fold_num; cl; apply clean_fold_num.
+Qed.
+
+Lemma clean_host_strict name args : clean (host_strict ops name args).
+Proof. unfold host_strict. cl. Qed.
+
+Lemma clean_apply_strict sg args : clean (apply_strict ops orc sg args).
+Proof.
+  unfold apply_strict. destruct (sig_is_builtin sg).
+  - destruct (classify (s_name sg) (s_params sg)); [apply clean_bsem|apply clean_fault; split; discriminate].
+  - apply clean_host_strict.
+Qed.
+
+Lemma clean_host_lazy name ths : Forall (fun th => clean (th tt)) ths -> clean (host_lazy name ths).
+Proof.
+  intros H. unfold host_lazy.
+  destruct ths as [|a [|b [|c [|e l]]]];
+    repeat match goal with H : Forall _ (_ :: _) |- _ => inversion H; clear H; subst end; cl.
+Qed.
+
+Lemma clean_apply_lazy sg ths : Forall (fun th => clean (th tt)) ths -> clean (apply_lazy sg ths).
+Proof.
+  intros H. unfold apply_lazy.
+  destruct (classify (s_name sg) (s_params sg)) as [bf|]; [|apply clean_host_lazy; auto].
+  destruct bf; try (apply clean_host_lazy; auto);
+  destruct ths as [|a [|b [|c [|e l]]]];
+    repeat match goal with H : Forall _ (_ :: _) |- _ => inversion H; clear H; subst end; cl.
+Qed.
+
+
+(* ---- stack discipline ---- *)
+Hypothesis Hpool : forall i body rt, nth_error pool i = Some (CThunk body rt) -> verify pool body = true.
+
+Definition sv_ok (x : sval) : Prop := match x with STh body _ => verify pool body = true | SV _ => True end.
+Definition stack_ok (s : list sval) : Prop := Forall sv_ok s.
+
+Lemma Forall_firstn' {X} (P : X -> Prop) n : forall l, Forall P l -> Forall P (firstn n l).
+Proof. induction n; intros l H; cbn; [constructor|]. destruct l; [constructor|]. inversion H; subst. constructor; auto. Qed.
+Lemma Forall_skipn' {X} (P : X -> Prop) n : forall l, Forall P l -> Forall P (skipn n l).
+Proof. induction n; intros l H; cbn; auto. destruct l; [constructor|]. inversion H; subst. auto. Qed.
+
+Lemma clean_bind_ret {X Y} (x : X) (f : X -> M Y) : clean (f x) -> clean (mbind (ret x) f).
+Proof. intros H. apply clean_bind; [apply clean_ret|]. intros t y E. inversion E; subst. exact H. Qed.
+
+Lemma clean_read16 {Y} hi lo r (f : N * list N -> M Y) :
+  clean (f ((hi * 256 + lo)%N, r)) -> clean (mbind (read16 (hi :: lo :: r)) f).
+Proof. apply clean_bind_ret. Qed.
+Lemma clean_read8 {Y} x r (f : N * list N -> M Y) : clean (f (x, r)) -> clean (mbind (read8 (x :: r)) f).
+Proof. apply clean_bind_ret. Qed.
+Lemma clean_read_const {Y} hi lo r c (f : const * list N -> M Y) :
+  nth_error pool (N.to_nat (hi * 256 + lo)) = Some c ->
+  clean (f (c, r)) -> clean (mbind (read_const pool (hi :: lo :: r)) f).
+Proof.
+  intros Hn H. unfold read_const. apply clean_bind; [apply clean_bind_ret; cbv beta iota; rewrite Hn; apply clean_ret|].
+  intros t x E. cbn in E. rewrite Hn in E. inversion E; subst. exact H.
+Qed.
+
+Lemma pop_n_ok n : forall s acc, n <= len s -> pop_n n s acc = ret (rev (firstn n s) ++ acc, skipn n s).
+Proof.
+  induction n as [|n IH]; intros s acc H; cbn [pop_n firstn skipn rev app]; [reflexivity|].
+  destruct s as [|x r]; [cbn in H; lia|]. cbn [pop firstn skipn rev].
+  unfold len in *. cbn [List.length] in H.
+  transitivity (pop_n n r (x :: acc)).
+  - unfold mbind, ret. destruct (pop_n n r (x :: acc)); reflexivity.
+  - rewrite IH by lia. rewrite <- app_assoc. reflexivity.
+Qed.
+Lemma clean_pop_n {Y} n s (f : list sval * list sval -> M Y) :
+  n <= len s -> clean (f (rev (firstn n s), skipn n s)) -> clean (mbind (pop_n n s []) f).
+Proof. intros Hn H. rewrite pop_n_ok by auto. rewrite app_nil_r. apply clean_bind_ret. exact H. Qed.
+Lemma clean_pop_val {Y} x s (f : val * list sval -> M Y) :
+  (forall v, x = SV v -> clean (f (v, s))) -> clean (mbind (pop_val (x :: s)) f).
+Proof.
+  intros H. unfold pop_val. cbn [pop]. destruct x as [v|body rt].
+  - apply clean_bind; [apply clean_bind_ret; apply clean_ret|]. intros t y E. cbn in E. inversion E; subst. auto.
+  - apply clean_bind; [apply clean_bind_ret; apply clean_fault; split; discriminate|]. intros t y E. cbn in E. discriminate.
+Qed.
+Lemma clean_vals_of xs : clean (vals_of xs).
+Proof. unfold vals_of. apply clean_mmapM. intros x _. cl. Qed.
+
+Lemma len_firstn_skipn {X} n (s : list X) : n <= len s -> len (skipn n s) = len s - n.
+Proof. unfold len. intros. apply skipn_length. Qed.
+
+Section LoopSafe.
+Variable runf : list N -> M val.
+Variable code : list N.
+Hypothesis Hrunf : forall body, verify pool body = true -> clean (runf body).
+
+Lemma ths_clean xs : stack_ok xs -> forall t ths,
+  mmapM (fun x => match x with STh body _ => ret (fun (_ : unit) => runf body) | SV _ => fault XTypeConf end) xs = (t, OVal ths) ->
+  Forall (fun th => clean (th tt)) ths.
+Proof.
+  induction xs as [|x r IH]; intros Hok t ths H; cbn [mmapM] in H.
+  - inversion H; constructor.
+  - inversion Hok as [|? ? Hx Hr]; subst. destruct x as [v|body rt]; [cbn in H; discriminate|].
+    match type of H with mbind _ ?k = _ => set (K := k) in H end.
+    cbn in H. subst K. cbv beta in H.
+    match type of H with context [mmapM ?F r] => destruct (mmapM F r) as [t' [ths'|?|?]] eqn:E end; cbn in H; try discriminate.
+    inversion H; subst. constructor; [apply Hrunf; exact Hx|]. eapply IH; eauto.
+Qed.
+
+Ltac lenlia := unfold len in *; cbn [List.length] in *; try rewrite skipn_length; lia.
+
+Lemma step_safe cont b r o dec pops pushes stack :
+  decode_op b = Some o -> decode (b :: r) = Some dec -> effect pool dec = Some (pops, pushes) ->
+  pops <= len stack -> stack_ok stack ->
+  (forall s', len s' = len stack - pops + pushes -> stack_ok s' -> o <> OP_RETURN -> o <> OP_JUMP ->
+              clean (cont (skipn (d_size dec) (b :: r)) s')) ->
+  (forall t s', d_jump dec = Some t -> len s' = len stack - pops + pushes -> stack_ok s' ->
+                clean (cont (skipn (N.to_nat t) code) s')) ->
+  clean (step runf code cont o r stack).
+Proof.
+  intros Ho Hdec Heff Hpops Hst Hfall Hjump.
+  destruct (decode_shape _ _ _ _ Ho Hdec) as [Hops Hd|hi lo r' Hops Hr Hd|hi lo r' Hops Hr Hd|x r' Hops Hr Hd
+     |hi lo hi2 lo2 r' Hops Hr Hd|hi lo hi2 lo2 r' Hops Hr Hd|hi lo x r' Hops Hr Hd];
+    destruct o; try discriminate Hops; subst dec; try subst r;
+    cbn [effect d_op d_const d_med d_b d_jump] in Heff; cbn [step intrinsic_sem]; cbn [d_size skipn] in Hfall; cbn [d_jump] in Hjump.
+  all: try solve [ inversion Heff; subst pops pushes; clear Heff;
+    apply clean_pop_n; [exact Hpops|]; cbv beta iota;
+    apply clean_bind'; [apply clean_vals_of|]; intros vs;
+    apply clean_bind'; [apply clean_bsem|]; intros res;
+    apply Hfall; [lenlia
+                 |constructor; [exact I|apply Forall_skipn'; exact Hst] | discriminate | discriminate] ].
+  - (* NOP *) inversion Heff; subst. apply Hfall; [lenlia|auto|discriminate|discriminate].
+  - (* RETURN *) inversion Heff; subst. destruct stack as [|x s]; [lenlia|].
+    apply clean_pop_val. intros v _. cbv beta iota. apply clean_ret.
+  - (* ADD_NUM *) inversion Heff; subst. apply Hfall; [lenlia|auto|discriminate|discriminate].
+  - (* LIST_LOAD *) inversion Heff; subst. destruct stack as [|x [|y s]]; try (lenlia).
+    inversion Hst as [|? ? _ Hst1]; subst. inversion Hst1 as [|? ? _ Hst2]; subst.
+    apply clean_pop_val. intros v _. cbv beta iota. apply clean_bind'; [apply clean_as_num|]. intros nb.
+    apply clean_pop_val. intros lv _. cbv beta iota. apply clean_bind'; [apply clean_as_list|]. intros vs.
+    match goal with |- clean (if ?c then _ else _) => destruct c end; [apply clean_fail|].
+    match goal with |- clean (match ?c with _ => _ end) => destruct c end; [|apply clean_fail].
+    apply Hfall; [lenlia|constructor; [exact I|auto]|discriminate|discriminate].
+  - (* MAP_LOAD *) inversion Heff; subst. destruct stack as [|x [|y s]]; try (lenlia).
+    inversion Hst as [|? ? _ Hst1]; subst. inversion Hst1 as [|? ? _ Hst2]; subst.
+    apply clean_pop_val. intros v _. cbv beta iota.
+    apply clean_pop_val. intros lv _. cbv beta iota. apply clean_bind'; [apply clean_as_map|]. intros kvs.
+    apply clean_bind'; [apply clean_key_of|]. intros kk.
+    match goal with |- clean (match ?c with _ => _ end) => destruct c end; [|apply clean_fail].
+    apply Hfall; [lenlia|constructor; [exact I|auto]|discriminate|discriminate].
+  - (* CONST *)
+    destruct (nth_error pool (N.to_nat (hi * 256 + lo))) as [c|] eqn:Hn; [|discriminate].
+    eapply clean_read_const; [exact Hn|]. cbv beta iota.
+    destruct c; try discriminate; inversion Heff; subst; apply Hfall; try discriminate;
+      try (lenlia).
+    + constructor; [exact I|auto].
+    + constructor; [cbn; eapply Hpool; eauto|auto].
+  - (* LOAD *)
+    destruct (nth_error pool (N.to_nat (hi * 256 + lo))) as [c|] eqn:Hn; [|discriminate].
+    eapply clean_read_const; [exact Hn|]. cbv beta iota.
+    destruct c; try discriminate; inversion Heff; subst.
+    destruct (assoc s rho); [|apply clean_fault; split; discriminate].
+    apply Hfall; try discriminate; [lenlia|constructor; [exact I|auto]].
+  - (* NEW_OBJ *)
+    destruct (nth_error pool (N.to_nat (hi * 256 + lo))) as [c|] eqn:Hn; [|discriminate].
+    eapply clean_read_const; [exact Hn|]. cbv beta iota.
+    destruct c as [| | |ty|]; try discriminate. destruct ty; try discriminate. inversion Heff; subst.
+    apply clean_pop_n; [exact Hpops|]. cbv beta iota.
+    apply clean_bind'; [apply clean_vals_of|]. intros vs.
+    apply Hfall; [lenlia
+                 |constructor; [exact I|apply Forall_skipn'; exact Hst] | discriminate | discriminate].
+  - (* IF_TRUE *) inversion Heff; subst.
+    apply clean_read16. cbv beta iota. destruct stack as [|x s]; [lenlia|].
+    inversion Hst as [|? ? _ Hst1]; subst.
+    apply clean_pop_val. intros v _. cbv beta iota. apply clean_bind'; [apply clean_as_bool|]. intros bv.
+    destruct bv.
+    + apply Hfall; [lenlia|auto|discriminate|discriminate].
+    + apply Hjump; [reflexivity|lenlia|auto].
+  - (* JUMP *) inversion Heff; subst.
+    apply clean_read16. cbv beta iota. apply Hjump; [reflexivity|lenlia|auto].
+  - (* DYNAMIC_CALL *) inversion Heff; subst.
+    apply clean_read8. cbv beta iota.
+    apply clean_pop_n; [lia|]. cbv beta iota.
+    apply clean_bind'; [apply clean_vals_of|]. intros vs.
+    assert (Hl : len (skipn (N.to_nat x) stack) = len stack - N.to_nat x) by (unfold len; apply skipn_length).
+    pose proof (Forall_skipn' sv_ok (N.to_nat x) _ Hst) as Hst1.
+    destruct (skipn (N.to_nat x) stack) as [|y s]; [lenlia|].
+    inversion Hst1 as [|? ? _ Hst2]; subst.
+    apply clean_pop_val. intros fv _. cbv beta iota.
+    destruct fv as [| | | | | | | |fty name lz]; try (apply clean_fault; split; discriminate).
+    destruct fty; try (apply clean_fault; split; discriminate).
+    destruct lz; [apply clean_fault; split; discriminate|].
+    apply clean_bind'; [apply clean_apply_strict|]. intros res.
+    apply Hfall; [lenlia|constructor; [exact I|auto]|discriminate|discriminate].
+  - (* OBJ_LOAD *)
+    destruct (nth_error pool (N.to_nat (hi2 * 256 + lo2))) as [c|] eqn:Hn; [|discriminate].
+    apply clean_read16. cbv beta iota.
+    eapply clean_read_const; [exact Hn|]. cbv beta iota.
+    destruct c; try discriminate. inversion Heff; subst.
+    destruct stack as [|y st]; [lenlia|]. inversion Hst as [|? ? _ Hst1]; subst.
+    apply clean_pop_val. intros ov _. cbv beta iota.
+    destruct ov; try (apply clean_fault; split; discriminate).
+    match goal with |- clean (match ?c with _ => _ end) => destruct c end; [|apply clean_fault; split; discriminate].
+    apply Hfall; [lenlia|constructor; [exact I|auto]|discriminate|discriminate].
+  - (* NEW_LIST *)
+    destruct (nth_error pool (N.to_nat (hi * 256 + lo))) as [c|] eqn:Hn; [|discriminate].
+    eapply clean_read_const; [exact Hn|]. cbv beta iota.
+    apply clean_read16. cbv beta iota.
+    destruct c as [| | |ty|]; try discriminate. destruct ty; try discriminate. inversion Heff; subst.
+    apply clean_pop_n; [exact Hpops|]. cbv beta iota.
+    apply clean_bind'; [apply clean_vals_of|]. intros vs.
+    apply Hfall; [lenlia
+                 |constructor; [exact I|apply Forall_skipn'; exact Hst] | discriminate | discriminate].
+  - (* NEW_MAP *)
+    destruct (nth_error pool (N.to_nat (hi * 256 + lo))) as [c|] eqn:Hn; [|discriminate].
+    eapply clean_read_const; [exact Hn|]. cbv beta iota.
+    apply clean_read16. cbv beta iota.
+    destruct c as [| | |ty|]; try discriminate. destruct ty; try discriminate. inversion Heff; subst.
+    apply clean_pop_n; [exact Hpops|]. cbv beta iota.
+    apply clean_bind'; [apply clean_vals_of|]. intros vs.
+    apply clean_bind'.
+    { match goal with |- clean (?G vs []) =>
+        assert (HG : forall n vs0 acc0, len vs0 <= n -> clean (G vs0 acc0)) end.
+      { induction n as [|n IH]; intros vs0 acc0 Hn0.
+        - destruct vs0; [apply clean_ret|lenlia].
+        - destruct vs0 as [|k [|v rr]]; try apply clean_ret.
+          apply clean_bind'; [apply clean_key_of|]. intros kk. apply IH. lenlia. }
+      eapply HG. apply Nat.le_refl. }
+    intros entries.
+    apply Hfall; [lenlia
+                 |constructor; [exact I|apply Forall_skipn'; exact Hst] | discriminate | discriminate].
+  - (* CALL_BY_VALUE *)
+    destruct (nth_error pool (N.to_nat (hi * 256 + lo))) as [c|] eqn:Hn; [|discriminate].
+    eapply clean_read_const; [exact Hn|]. cbv beta iota.
+    apply clean_read8. cbv beta iota.
+    destruct c as [|sg| | |]; try discriminate.
+    destruct (Nat.eqb (len (s_params sg)) (N.to_nat x) && negb (s_lazy sg)); [|discriminate].
+    inversion Heff; subst.
+    apply clean_pop_n; [exact Hpops|]. cbv beta iota.
+    apply clean_bind'; [apply clean_vals_of|]. intros vs.
+    apply clean_bind'; [apply clean_apply_strict|]. intros res.
+    apply Hfall; [lenlia
+                 |constructor; [exact I|apply Forall_skipn'; exact Hst] | discriminate | discriminate].
+  - (* CALL_BY_NEED *)
+    destruct (nth_error pool (N.to_nat (hi * 256 + lo))) as [c|] eqn:Hn; [|discriminate].
+    eapply clean_read_const; [exact Hn|]. cbv beta iota.
+    apply clean_read8. cbv beta iota.
+    destruct c as [|sg| | |]; try discriminate.
+    destruct (Nat.eqb (len (s_params sg)) (N.to_nat x) && s_lazy sg); [|discriminate].
+    inversion Heff; subst.
+    apply clean_pop_n; [exact Hpops|]. cbv beta iota.
+    apply clean_bind.
+    { apply clean_mmapM. intros y _. destruct y; [apply clean_fault; split; discriminate|apply clean_ret]. }
+    intros t ths Hths.
+    assert (Hc : Forall (fun th => clean (th tt)) ths).
+    { eapply ths_clean; [|exact Hths]. apply Forall_rev. apply Forall_firstn'. exact Hst. }
+    apply clean_bind'.
+    { destruct (sig_is_builtin sg); [apply clean_apply_lazy|apply clean_host_lazy]; exact Hc. }
+    intros res.
+    apply Hfall; [lenlia
+                 |constructor; [exact I|apply Forall_skipn'; exact Hst] | discriminate | discriminate].
+Qed.
+
+
+(* ---- the verifier's view of a pc ---- *)
+Definition acc (pc dep : nat) : Prop :=
+  exists f d pend lr, vloop f pool (len code) pc (skipn pc code) d pend lr = true /\ skipn pc code <> [] /\
+                      here d pend pc = Some dep.
+
+Lemma vnext_cont f L pc rest pend depth dec pops pushes :
+  vnext f pool L pc rest pend depth dec pops pushes = true ->
+  exists d' pend' lr', vloop f pool L (pc + d_size dec) (skipn (d_size dec) rest) d' pend' lr' = true /\
+                       incl (pend_del pc pend) pend'.
+Proof.
+  unfold vnext. intros H.
+  destruct (d_op dec);
+    try (eexists _, _, _; split; [exact H|apply incl_refl]).
+  - apply andb_prop in H as [_ H]. eexists _, _, _; split; [exact H|apply incl_refl].
+  - destruct (d_jump dec); [|discriminate]. apply andb_prop in H as [_ H].
+    eexists _, _, _; split; [exact H|apply incl_tl, incl_refl].
+  - destruct (d_jump dec); [|discriminate]. apply andb_prop in H as [_ H].
+    eexists _, _, _; split; [exact H|apply incl_tl, incl_refl].
+Qed.
+
+Lemma acc_fall f pc nd pend :
+  vloop f pool (len code) pc (skipn pc code) (Some nd) pend false = true -> acc pc nd.
+Proof.
+  intros H.
+  assert (Hne : skipn pc code <> []).
+  { intros E. rewrite E in H. destruct f; [discriminate|]. rewrite vloop_nil in H. discriminate. }
+  destruct (vloop_inv _ _ _ _ _ _ _ _ H Hne) as (f' & depth & dec & pops & pushes & _ & Hh & _).
+  exists f, (Some nd), pend, false. repeat split; auto.
+  unfold here in *. destruct (pend_get pc pend); [destruct (Nat.eqb nd n)|]; congruence.
+Qed.
+
+Lemma acc_pend : forall f pc d pend lr t nd,
+  vloop f pool (len code) pc (skipn pc code) d pend lr = true -> In (t, nd) pend -> acc t nd.
+Proof.
+  induction f as [|f IH]; intros pc d pend lr t nd H Hin; [discriminate|].
+  destruct (skipn pc code) as [|b r] eqn:E.
+  - rewrite vloop_nil in H. destruct pend; [destruct Hin|]. rewrite andb_false_r in H. discriminate.
+  - assert (Hne : b :: r <> []) by discriminate.
+    destruct (vloop_inv _ _ _ _ _ _ _ _ H Hne) as (f' & depth & dec & pops & pushes & Hf & Hh & Hdec & Heff & Hag & Hle & Hn).
+    inversion Hf; subst f'. clear Hf.
+    destruct (Nat.eqb t pc) eqn:Etp.
+    + apply Nat.eqb_eq in Etp. subst t.
+      unfold agree in Hag. rewrite forallb_forall in Hag. specialize (Hag _ Hin). cbn [fst snd] in Hag.
+      rewrite Nat.eqb_refl in Hag. apply Nat.eqb_eq in Hag. subst nd.
+      exists (S f), d, pend, lr. rewrite E. repeat split; auto.
+    + destruct (vnext_cont _ _ _ _ _ _ _ _ _ Hn) as (d' & pend' & lr' & Hv & Hincl).
+      rewrite <- E in Hv. rewrite skipn_add in Hv.
+      eapply IH; [exact Hv|]. apply Hincl. unfold pend_del. apply filter_In. split; auto.
+      cbn [fst]. rewrite Etp. reflexivity.
+Qed.
+
+Lemma loop_safe : forall g pc stack n,
+  acc pc (len stack) -> stack_ok stack -> clean (run_loop runf code g (skipn pc code) stack n).
+Proof.
+  induction g as [|g IH]; intros pc stack n Hacc Hst; cbn [run_loop].
+  - apply clean_fault; split; discriminate.
+  - assert (Hgoal : clean (match skipn pc code with
+                           | [] => fault XOther
+                           | b :: r => match decode_op b with
+                                       | None => fault XOpcode
+                                       | Some o => step runf code (fun r0 s => run_loop runf code g r0 s (option_map pred n)) o r stack
+                                       end
+                           end)).
+    { destruct Hacc as (f & d & pend & lr & Hv & Hne & Hh).
+      destruct (vloop_inv _ _ _ _ _ _ _ _ Hv Hne) as (f' & depth & dec & pops & pushes & Hf & Hh' & Hdec & Heff & Hag & Hle & Hn).
+      rewrite Hh in Hh'. inversion Hh'; subst depth. clear Hh'.
+      destruct (skipn pc code) as [|b r] eqn:E; [congruence|].
+      pose proof (decode_op_of _ _ _ Hdec) as Ho. rewrite Ho.
+      eapply step_safe; eauto.
+      - (* fall through *)
+        intros s' Hlen Hst' Hnr Hnj.
+        rewrite <- E. rewrite skipn_add.
+        apply IH; auto. rewrite Hlen.
+        unfold vnext in Hn. rewrite <- E in Hn. rewrite skipn_add in Hn.
+        destruct (d_op dec) eqn:Eop; try congruence; try (eapply acc_fall; exact Hn).
+        destruct (d_jump dec); [|discriminate]. apply andb_prop in Hn as [_ Hn]. eapply acc_fall; exact Hn.
+      - (* jump *)
+        intros t s' Hj Hlen Hst'. apply IH; auto. rewrite Hlen.
+        unfold vnext in Hn. rewrite <- E in Hn. rewrite skipn_add in Hn.
+        rewrite Hj in Hn.
+        destruct (decode_jump_op _ _ _ Hdec Hj) as [Eop|Eop]; rewrite Eop in Hn;
+          apply andb_prop in Hn as [_ Hn]; (eapply acc_pend; [exact Hn|left; reflexivity]). }
+    destruct n as [[|m]|]; [apply clean_fault; split; discriminate|exact Hgoal|exact Hgoal].
+Qed.
+
+End LoopSafe.
+
+Lemma run_safe : forall f code, verify pool code = true -> clean (vm_run ops orc rho pool limit f code).
+Proof.
+  induction f as [|f IH]; intros code Hv.
+  - apply clean_fault; split; discriminate.
+  - rewrite vm_run_S.
+    apply (loop_safe (vm_run ops orc rho pool limit f) code IH (4 * S (len code)) 0 [] limit); [|constructor].
+    unfold verify in Hv. eapply acc_fall. exact Hv.
+Qed.
+
+End Safe.
+
+Lemma verified_safe : forall (ops : numops) (orc : oracles) rho pool lim f code t k,
+  verify_all code pool = true ->
+  vm_run ops orc rho pool lim f code = (t, OFault k) ->
+  k <> XUnderflow /\ k <> XOpcode.
+Proof.
+  intros ops orc rho pool lim f code t k Hv Hrun.
+  unfold verify_all in Hv. apply andb_prop in Hv as [Hc Hp].
+  eapply (run_safe ops orc rho pool lim); [|exact Hc|exact Hrun].
+  intros i body rt Hn. rewrite forallb_forall in Hp.
+  apply nth_error_In in Hn. exact (Hp _ Hn).
 Qed.
